@@ -384,6 +384,10 @@ func (s *Session) Write(b []byte) (n int, err error) {
 	for len(b) > 0 {
 		sizeToSend := mathext.Min(len(b), maxPDU)
 		if sent, err := s.writeChunk(b[:sizeToSend]); sent == 0 || err != nil {
+			// The chunks before this one have been accepted.
+			if !s.isClient && s.downloadBytes != nil && n > 0 {
+				s.downloadBytes.Add(int64(n))
+			}
 			return n, err
 		}
 		b = b[sizeToSend:]
